@@ -159,6 +159,109 @@ Definition init_with (v0 : option Z) : astate := mkA 0 None v0 0 0 [] [].
 Definition run_from (v0 : option Z) (biased : bool) (evs : list event) : astate :=
   fold_left (step biased) evs (init_with v0).
 
+(** ** re-entrant histories: one synchronous observer (an ImmediateEffect reading one field of the
+    action) that, each time that field is published and while its budget lasts, dispatches to /
+    aborts a dispatch of the SAME action from inside the notification. Publications, in the order
+    of the code: dispatch = in_flight += 1; input := Some (observers of input run; the task is
+    spawned after that); completion = in_flight -= 1; version += 1 (observers of version);
+    value := Some r (observers of value); then, for completion and abort alike, if in_flight == 0
+    (read at that point): input := None (observers of input); clear = value := None (observers of
+    value). Only combinations in which the observer's action does not publish the observed field
+    are generated (version | value x dispatch | abort, input x abort): no nested notification.
+    The theorems of ActionProofs.v are about [run] (no observer); this part is compared with the
+    implementation, not proved. *)
+Inductive field := FVersion | FValue | FInput.
+Inductive oact := ODispatch (i : Z) | OAbort (k : nat).
+Definition observer := (field * oact)%type.
+
+Definition field_eqb (a b : field) : bool :=
+  match a, b with
+  | FVersion, FVersion | FValue, FValue | FInput, FInput => true
+  | _, _ => false
+  end.
+
+(** state and remaining budget *)
+Definition ostate := (astate * nat)%type.
+
+Definition fire (ob : option observer) (f : field) (sb : ostate) : ostate :=
+  match ob, sb with
+  | Some (fo, a), (s, S b) =>
+      if field_eqb fo f then
+        (match a with
+         | ODispatch i => do_dispatch i s
+         | OAbort k => set_tasks s (upd k (set_handle Sent) (tasks s))
+         end, b)
+      else sb
+  | _, _ => sb
+  end.
+
+(** the epilogue of the spawned task: [if in_flight == 0 { input = None }] *)
+Definition finish_input_obs (ob : option observer) (sb : ostate) : ostate :=
+  if in_flight (fst sb) =? 0
+  then fire ob FInput
+            (let s := fst sb in mkA (in_flight s) None (value s) (version s) (dispatched s) (tasks s) (wlog s),
+             snd sb)
+  else sb.
+
+Definition dispatch_obs (ob : option observer) (i : Z) (sb : ostate) : ostate :=
+  let s := fst sb in
+  (* in_flight += 1; input := Some i; observers of input; then the task is spawned *)
+  let s1 := mkA (S (in_flight s)) (Some i) (value s) (version s) (dispatched s) (tasks s) (wlog s) in
+  let '(s2, b2) := fire ob FInput (s1, snd sb) in
+  (set_tasks s2 (tasks s2 ++ [mkTask true Held None false (dispatched s)]), b2).
+
+Definition poll_obs (ob : option observer) (k : nat) (sb : ostate) : ostate :=
+  let s := fst sb in
+  match nth_error (tasks s) k with
+  | None => sb
+  | Some t =>
+      if t_done t || negb (t_woken t) then sb else
+      let take_abort := abort_ready t in
+      if take_abort then
+        finish_input_obs ob
+          (mkA (pred (in_flight s)) (input s) (value s) (version s) (dispatched s)
+               (upd k finish_task (tasks s)) (wlog s), snd sb)
+      else
+        match t_result t with
+        | Some r =>
+            let s1 := mkA (pred (in_flight s)) (input s) (value s) (version s) (dispatched s)
+                          (upd k finish_task (tasks s)) (wlog s) in
+            if dispatched s <=? t_curver t then
+              let '(s2, b2) := fire ob FVersion
+                                 (mkA (in_flight s1) (input s1) (value s1) (S (version s1)) (dispatched s1)
+                                      (tasks s1) (wlog s1), snd sb) in
+              let sb3 := fire ob FValue
+                           (mkA (in_flight s2) (input s2) (Some r) (version s2) (dispatched s2) (tasks s2)
+                                (Wrote k r :: wlog s2), b2) in
+              finish_input_obs ob sb3
+            else finish_input_obs ob (s1, snd sb)
+        | None => (set_tasks s (upd k unwake (tasks s)), snd sb)
+        end
+  end.
+
+Fixpoint run_all_obs (ob : option observer) (fuel : nat) (picks : list nat) (sb : ostate) : ostate :=
+  match fuel with
+  | O => sb
+  | S f =>
+      match ready (fst sb) with
+      | [] => sb
+      | r => run_all_obs ob f (tl picks) (poll_obs ob (nth (Nat.modulo (hd 0 picks) (length r)) r 0) sb)
+      end
+  end.
+
+Definition step_obs (ob : option observer) (sb : ostate) (e : event) : ostate :=
+  let s := fst sb in
+  match e with
+  | Dispatch i => dispatch_obs ob i sb
+  | Abort k => (set_tasks s (upd k (set_handle Sent) (tasks s)), snd sb)
+  | DropH k => (set_tasks s (upd k (set_handle Dropped) (tasks s)), snd sb)
+  | Complete k r => (set_tasks s (upd k (set_result r) (tasks s)), snd sb)
+  | Poll k _ => poll_obs ob k sb
+  | Clear => fire ob FValue
+               (mkA (in_flight s) (input s) None (version s) (dispatched s) (tasks s) (Cleared :: wlog s), snd sb)
+  | RunAll picks _ => run_all_obs ob (2 * (length (tasks s) + snd sb) + 2) picks sb
+  end.
+
 (** [pending()] = ArcMemo(in_flight > 0) *)
 Definition pending (s : astate) : bool := negb (in_flight s =? 0).
 
